@@ -283,6 +283,18 @@ Definition var_args_combined_size (t : txv) : nat :=
 Definition dc_ct_urlencoded : bytes := str "application/x-www-form-urlencoded"%string.
 Definition dc_ct_multipart : bytes := str "multipart/form-data"%string.
 
+(* strings.TrimSpace on its ASCII white space (HT LF VT FF CR SP); the Unicode spaces it also
+   trims (U+0085, U+00A0, ...) are outside the model *)
+Definition dc_is_space (b : byte) : bool := (b =? 32) || dc_in 9 13 b.
+Fixpoint dc_drop_space (s : bytes) : bytes :=
+  match s with
+  | [] => []
+  | b :: r => if dc_is_space b then dc_drop_space r else s
+  end.
+Definition dc_trim_space (s : bytes) : bytes := rev (dc_drop_space (rev (dc_drop_space s))).
+(* mediaType := val[:IndexByte(val, ';')] (the whole value without ';'), trimmed *)
+Definition dc_media_type (vl : bytes) : bytes := let '(a, _, _) := dc_cut 59 vl in dc_trim_space a.
+
 (* [cookie_ord raw] = parse_cookies raw in Go's range order (oracle) *)
 Definition add_request_header (cookie_ord : bytes -> gmap) (t : txv) (k v : bytes) : txv :=
   if dc_is_empty k then t
@@ -291,8 +303,8 @@ Definition add_request_header (cookie_ord : bytes -> gmap) (t : txv) (k v : byte
     let kl := lower_ascii k in   (* compared with two ASCII constants only *)
     if bytes_eqb kl (str "content-type"%string) then
       let vl := lower_ascii v in
-      (* the media type may be followed by parameters: "...urlencoded" or "...urlencoded;" prefix *)
-      if bytes_eqb vl dc_ct_urlencoded || is_prefix (dc_ct_urlencoded ++ [59]) vl
+      (* the value up to the first ';', strings.TrimSpace'd, is compared with the media type *)
+      if bytes_eqb (dc_media_type vl) dc_ct_urlencoded
       then set_rbp t1 (str "URLENCODED"%string)
       else if is_prefix dc_ct_multipart vl then set_rbp t1 (str "MULTIPART"%string)
       else t1
